@@ -268,6 +268,10 @@ func (r *runner) nextProc() int {
 // runChild executes one simnode process; returns parsed results, the seed that was started but
 // produced no result (crash), stderr and the exit code.
 func (r *runner) runChild(args []string, variant string) (res []*result, crashedSeed *uint64, stderr string, code int) {
+	return r.runChildEnv(args, variant, nil)
+}
+
+func (r *runner) runChildEnv(args []string, variant string, extraEnv []string) (res []*result, crashedSeed *uint64, stderr string, code int) {
 	id := r.nextProc()
 	home := filepath.Join(r.scratch, fmt.Sprintf("h%d", id))
 	os.MkdirAll(home, 0755)
@@ -286,7 +290,7 @@ func (r *runner) runChild(args []string, variant string) (res []*result, crashed
 		}
 	}
 	cmd := exec.Command(bin, append(args, "-out", outf)...)
-	cmd.Env = childEnv(home, variant)
+	cmd.Env = append(childEnv(home, variant), extraEnv...)
 	var eb bytes.Buffer
 	cmd.Stderr = &eb
 	cmd.Stdout = nil
